@@ -325,7 +325,12 @@ func (engine *Engine) CommitBlock(header *block.Header, conflicts uint32, isPack
 			return err
 		}
 
-		if err := saveQuality(engine.data, header.ID(), state.Quality); err != nil {
+		// The quality record and the finalized checkpoint are written in one batch: a stop between
+		// two separate writes left a node that restarts with the previous checkpoint (NewEngine only
+		// commits a head again whose quality record is missing) and then accepts blocks conflicting
+		// with the checkpoint it had already computed.
+		bulk := engine.data.Bulk()
+		if err := saveQuality(bulk, header.ID(), state.Quality); err != nil {
 			return err
 		}
 		engine.caches.quality.Add(header.ID(), state.Quality)
@@ -333,15 +338,25 @@ func (engine *Engine) CommitBlock(header *block.Header, conflicts uint32, isPack
 		// Nothing to finalize when the block is still in finalized's own epoch (a fork branching
 		// inside that epoch): the target checkpoint is finalized itself or older, and
 		// findCheckpointByQuality would miss it. Same guard as Resync.
-		if state.Committed && state.Quality > 1 && getCheckPoint(header.Number()) > block.Number(engine.Finalized()) {
-			id, err := engine.findCheckpointByQuality(state.Quality-1, engine.Finalized(), header.ID())
-			if err != nil {
+		finalizing := state.Committed && state.Quality > 1 && getCheckPoint(header.Number()) > block.Number(engine.Finalized())
+		var id thor.Bytes32
+		if finalizing {
+			var err error
+			if id, err = engine.findCheckpointByQuality(state.Quality-1, engine.Finalized(), header.ID()); err != nil {
+				// the quality record is kept, as before
+				if werr := bulk.Write(); werr != nil {
+					return werr
+				}
 				return err
 			}
-
-			if err := engine.data.Put(finalizedKey, id[:]); err != nil {
+			if err := bulk.Put(finalizedKey, id[:]); err != nil {
 				return err
 			}
+		}
+		if err := bulk.Write(); err != nil {
+			return err
+		}
+		if finalizing {
 			engine.finalized.Store(id)
 			metricBlocksCommitted().Add(1)
 		}
